@@ -2,6 +2,7 @@ package jd
 
 import (
 	"fmt"
+	"math"
 )
 
 // JsonNode is a JSON value, collection of values, or a void representing
@@ -100,6 +101,9 @@ func NewJsonNode(n interface{}) (JsonNode, error) {
 		}
 		return l, nil
 	case float64:
+		if math.IsInf(t, 0) || math.IsNaN(t) {
+			return nil, fmt.Errorf("unsupported value %v", t)
+		}
 		return jsonNumber(t), nil
 	case int:
 		return jsonNumber(t), nil
